@@ -26,6 +26,8 @@ def handle (req : Sexp) : Sexp :=
   | .list [.atom "prog", _, prog, _, .list vals] => Driver.progOp prog vals
   | .list [.atom "rewrite", _, p, _, .list vals, q, _, _] => Driver.rewriteOp p q vals
   | .list [.atom "describe", _, prog, _, _] => Driver.describeOp prog
+  | .list [.atom "total", _, prog, _, _] => Driver.totalOp prog
+  | .list [.atom "loc", .str src, .atom lo, .atom hi] => Driver.locOp src (lo.toNat?.getD 0) (hi.toNat?.getD 0)
   | .list [.atom "schema-ctx", env, .list rts, .str template, container, .list ovs, .list calls, _] =>
     Driver.schemaCtxOp env rts template (match container with | .str k => some k | _ => none) ovs calls
   | _ => .list [.atom "bad-op"]
